@@ -1085,6 +1085,7 @@ func (s *SecureChannel) sendAsyncWithTimeout(
 			binary.LittleEndian.PutUint32(chunk[16:], uint32(number))
 		}
 
+		verifSeq := binary.LittleEndian.Uint32(chunk[verifSeqOff(m):])
 		chunk, err = instance.signAndEncrypt(m, chunk)
 		if err != nil {
 			return nil, err
@@ -1092,7 +1093,7 @@ func (s *SecureChannel) sendAsyncWithTimeout(
 
 		// send the message
 		var n int
-		verifPoint("chunk.write", s, "msg", m, "i", i, "n", len(chunks), "seq", binary.LittleEndian.Uint32(chunks[i][verifSeqOff(m):]), "req", reqID, "chan", instance.secureChannelID, "tok", instance.securityTokenID, "len", len(chunk))
+		verifPoint("chunk.write", s, "msg", m, "i", i, "n", len(chunks), "seq", verifSeq, "req", reqID, "chan", instance.secureChannelID, "tok", instance.securityTokenID, "len", len(chunk))
 		s.c.SetWriteDeadline(time.Now().Add(timeout))
 		if n, err = s.c.Write(chunk); err != nil {
 			return nil, err
@@ -1142,6 +1143,7 @@ func (s *SecureChannel) writeMessageChunks(ctx context.Context, instance *channe
 
 		// Sign and encrypt after the final chunk bytes are in place, since the
 		// security footer covers the whole encoded chunk.
+		verifSeq := binary.LittleEndian.Uint32(chunk[verifSeqOff(m):])
 		chunk, err = instance.signAndEncrypt(m, chunk)
 		if err != nil {
 			return bytesSent, err
@@ -1149,7 +1151,7 @@ func (s *SecureChannel) writeMessageChunks(ctx context.Context, instance *channe
 
 		// UASC writes are expected to flush complete chunks. Treat short writes as
 		// a hard error instead of silently truncating the response stream.
-		verifPoint("chunk.write", s, "msg", m, "i", i, "n", len(chunks), "seq", binary.LittleEndian.Uint32(chunks[i][verifSeqOff(m):]), "req", reqID, "chan", instance.secureChannelID, "tok", instance.securityTokenID, "len", len(chunk))
+		verifPoint("chunk.write", s, "msg", m, "i", i, "n", len(chunks), "seq", verifSeq, "req", reqID, "chan", instance.secureChannelID, "tok", instance.securityTokenID, "len", len(chunk))
 		n, err := s.c.Write(chunk)
 		if err != nil {
 			return bytesSent, err
